@@ -8,10 +8,14 @@
    res        realloc / rfail: "moved" (a block came back) or "null"
    kept       end: number of tracked copies of leak failures the output allocated while the failure was reported
    listed     the blocks named in the leak failure / final report (allocation numbers mapped back to script ids),
-              stated = the total the report states; a truncated report ("Too many leaks") may list a subset *)
+              stated = the total the report states; a truncated report ("Too many leaks") may list a subset
+   Runs may be thousands of tests long: the walk keeps the ghost record of the last finished test only (hist is a window
+   of one record here) and, in `left', the blocks that the tests before it left behind and that are still outstanding -
+   so a state does not grow with the length of the run and the validation stays linear in the length of the log. *)
 EXTENDS LeakPlugin, Json, IOUtils
-VARIABLE l
-tvars == <<vars, l>>
+VARIABLES l,
+          left      \* ghost: ids of the outstanding blocks that were left behind by the tests finished before the last finished one
+tvars == <<vars, l, left>>
 Tr == ndJsonDeserialize(IOEnv.TRACE)
 E == Tr[l]
 Is(op) == l <= Len(Tr) /\ Tr[l].op = op /\ l' = l + 1
@@ -23,45 +27,50 @@ ListedOK(exp) == /\ E.stated = Cardinality(exp)
 \* action, destroyed before the post-test action)
 OpObs(o, inTest) == /\ E.ran = o.ran
                     /\ o.ran => (E.chk = o.chk + (IF inTest THEN 1 ELSE 0) /\ E.all = o.all + (IF inTest THEN 1 ELSE 0))
-Call == \/ Is("begin") /\ Begin /\ E.failures = out'.failures
-        \/ Is("alloc") /\ E.arg = nextId /\ AllocOp(E.ph) /\ OpObs(out', cur # 0)
-        \/ Is("free") /\ FreeOp(E.ph, E.arg) /\ OpObs(out', cur # 0)
-        \/ Is("realloc") /\ E.arg2 = nextId /\ ReallocOp(E.ph, E.arg, TRUE) /\ OpObs(out', cur # 0) /\ (out'.ran => E.res = "moved")
-        \/ Is("rfail") /\ ReallocOp(E.ph, E.arg, FALSE) /\ OpObs(out', cur # 0) /\ (out'.ran => E.res = "null")
-        \/ Is("expect") /\ ExpectOp(E.ph, E.arg) /\ OpObs(out', cur # 0)
-        \/ Is("ignore") /\ IgnoreOp(E.ph) /\ OpObs(out', cur # 0)
-        \/ Is("fail") /\ FailOp(E.ph) /\ OpObs(out', cur # 0)
-        \/ Is("end") /\ (E.arg # 0 => E.arg = nextId) /\ End(E.arg # 0, E.arg2 = 1) /\ E.kept = out'.kept /\ E.leakfail = (IF out'.leakfail THEN 1 ELSE 0) /\ E.own = out'.own /\ E.failures = out'.failures
+\* the end of a test: the record of the test finished before it moves into `left'
+TEnd(keep, pf) == /\ EndStep(keep, pf) /\ hist' = <<EndRecord(pf)>>
+                  /\ left' = (left \cup (IF hist = <<>> THEN {} ELSE hist[1].mine)) \cap Ids(blocks')
+\* any other step: blocks that are released (or re-allocated: the result is a new block) leave `left'
+Prune == left' = left \cap Ids(blocks')
+Call == \/ Is("begin") /\ Begin /\ E.failures = out'.failures /\ UNCHANGED left
+        \/ Is("alloc") /\ E.arg = nextId /\ AllocOp(E.ph) /\ OpObs(out', cur # 0) /\ Prune
+        \/ Is("free") /\ FreeOp(E.ph, E.arg) /\ OpObs(out', cur # 0) /\ Prune
+        \/ Is("realloc") /\ E.arg2 = nextId /\ ReallocOp(E.ph, E.arg, TRUE) /\ OpObs(out', cur # 0) /\ (out'.ran => E.res = "moved") /\ Prune
+        \/ Is("rfail") /\ ReallocOp(E.ph, E.arg, FALSE) /\ OpObs(out', cur # 0) /\ (out'.ran => E.res = "null") /\ Prune
+        \/ Is("expect") /\ ExpectOp(E.ph, E.arg) /\ OpObs(out', cur # 0) /\ Prune
+        \/ Is("ignore") /\ IgnoreOp(E.ph) /\ OpObs(out', cur # 0) /\ Prune
+        \/ Is("fail") /\ FailOp(E.ph) /\ OpObs(out', cur # 0) /\ Prune
+        \/ Is("end") /\ (E.arg # 0 => E.arg = nextId) /\ TEnd(E.arg # 0, E.arg2 = 1) /\ E.kept = out'.kept /\ E.leakfail = (IF out'.leakfail THEN 1 ELSE 0) /\ E.own = out'.own /\ E.failures = out'.failures
                      /\ (out'.leakfail => ListedOK(out'.listed))
-        \/ Is("final") /\ Final /\ ListedOK(out'.listed)
-TInit == Init /\ l = 1
+        \/ Is("final") /\ Final /\ ListedOK(out'.listed) /\ UNCHANGED left
+TInit == Init /\ l = 1 /\ left = {}
 TReset == Is("reset") /\ blocks' = {} /\ nextId' = 1 /\ period' = "enabled" /\ cur' = 0 /\ ntests' = 0 /\ phase' = "o" /\ aborted' = {}
           /\ expected' = 0 /\ ignore' = FALSE /\ failures' = 0 /\ failAtStart' = 0 /\ nops' = 0
-          /\ out' = [ran |-> TRUE, chk |-> 0, all |-> 0] /\ hist' = <<>>
+          /\ out' = [ran |-> TRUE, chk |-> 0, all |-> 0] /\ hist' = <<>> /\ left' = {}
 TSpec == TInit /\ [][Call \/ TReset]_tvars
 Accepted == TLCGet("stats").diameter - 1 = Len(Tr)
-\* the clauses of C07 on the last finished test (hist grows with the run; checking its last record keeps validation linear)
+\* the clauses of C07 on the last finished test, against everything the tests before it left behind
 LastOK == Len(hist) > 0 =>
              LET r == hist[Len(hist)] IN
              /\ r.leakFailure <=> (~r.ownFailed /\ ~r.ignore /\ Cardinality(r.mine) # r.expected)
              /\ r.leakFailure => r.listed = r.mine
              /\ r.ownFailed => ~r.leakFailure
-             /\ \A i \in 1..(Len(hist) - 1) : hist[i].mine \cap r.listed = {}
+             /\ left \cap r.listed = {}
 TInv == TypeOK /\ Refines /\ UniqueIds /\ LastOK
 
 \* diagnostics: the same walk without binding the observations
-PCall == \/ Is("begin") /\ Begin
-         \/ Is("alloc") /\ AllocOp(E.ph)
-         \/ Is("free") /\ FreeOp(E.ph, E.arg)
-         \/ Is("realloc") /\ ReallocOp(E.ph, E.arg, TRUE)
-         \/ Is("rfail") /\ ReallocOp(E.ph, E.arg, FALSE)
-         \/ Is("expect") /\ ExpectOp(E.ph, E.arg)
-         \/ Is("ignore") /\ IgnoreOp(E.ph)
-         \/ Is("fail") /\ FailOp(E.ph)
-         \/ Is("end") /\ End(E.arg # 0, E.arg2 = 1)
-         \/ Is("final") /\ Final
+PCall == \/ Is("begin") /\ Begin /\ UNCHANGED left
+         \/ Is("alloc") /\ AllocOp(E.ph) /\ Prune
+         \/ Is("free") /\ FreeOp(E.ph, E.arg) /\ Prune
+         \/ Is("realloc") /\ ReallocOp(E.ph, E.arg, TRUE) /\ Prune
+         \/ Is("rfail") /\ ReallocOp(E.ph, E.arg, FALSE) /\ Prune
+         \/ Is("expect") /\ ExpectOp(E.ph, E.arg) /\ Prune
+         \/ Is("ignore") /\ IgnoreOp(E.ph) /\ Prune
+         \/ Is("fail") /\ FailOp(E.ph) /\ Prune
+         \/ Is("end") /\ TEnd(E.arg # 0, E.arg2 = 1)
+         \/ Is("final") /\ Final /\ UNCHANGED left
 PSpec == TInit /\ [][PCall \/ TReset]_tvars
 Predict == (l > 1 /\ l - 1 >= atoi(IOEnv.FROM_LINE_N)) =>
               PrintT(<<"BEH", ToJson([line |-> l - 1, out |-> out, test |-> cur, expected |-> expected, ignore |-> ignore,
-                                      blocks |-> blocks])>>)
+                                      blocks |-> blocks, left |-> left])>>)
 =============================================================================
